@@ -344,8 +344,10 @@ class InProtocolBase(ProtocolMixin):
 
         try:
             retval = _uuid_deserialize[ser_as](retval)
-        except (ValueError, TypeError, AttributeError, UnicodeDecodeError) as e:
+        except (ValueError, TypeError, AttributeError, UnicodeDecodeError,
+                                                         AssertionError) as e:
             # AttributeError: uuid.UUID() wants a string
+            # AssertionError: uuid.UUID(bytes=) wants bytes
             raise ValidationError(e)
 
         return retval
@@ -557,6 +559,15 @@ class InProtocolBase(ProtocolMixin):
         return cls.from_bytes(value)
 
     def datetime_from_unicode_iso(self, cls, string):
+        try:
+            return self._datetime_from_unicode_iso(cls, string)
+
+        except OverflowError as e:
+            # a point in time that datetime can't hold once it is moved to
+            # the time zone asked for
+            raise ValidationError(string, "%%r: %s" % e)
+
+    def _datetime_from_unicode_iso(self, cls, string):
         astz = self.get_cls_attrs(cls).as_timezone
 
         match = cls._utc_re.match(string)
@@ -790,7 +801,8 @@ _uuid_deserialize = {
     'bytes': lambda s: uuid.UUID(bytes=s),
     'bytes_le': lambda s: uuid.UUID(bytes_le=s),
     'fields': lambda s: uuid.UUID(fields=s),
-    'int': lambda s: uuid.UUID(int=s),
+    # the protocols that carry text carry the number as text
+    'int': lambda s: uuid.UUID(int=int(s)),
     ('int', int): lambda s: uuid.UUID(int=s),
     ('int', str): lambda s: uuid.UUID(int=int(s)),
 }
